@@ -42,7 +42,16 @@ def exactness_walk(root: Path, desc: dict, ctx, handle=None) -> dict:
                     if not (root / f).is_file():
                         ctx.fail("location", ("listed-file-missing",),
                                  f"{f} listed by {node['rel']}")
-                real = dsops.count_examples(root / sh["files"][0], desc)
+                try:
+                    real = dsops.count_examples(root / sh["files"][0], desc)
+                except Exception as exc:  # pylint: disable=broad-except
+                    if not (root / sh["files"][0]).is_file():
+                        raise
+                    ctx.fail("shard-count", ("listed-shard-undecodable",
+                                             type(exc).__name__),
+                             f"{sh['files'][0]} records {sh['n']} examples "
+                             f"but does not decode: {exc!r}")
+                    continue
                 decoded_total += real
                 if real != sh["n"]:
                     ctx.fail("shard-count", ("shard-count-mismatch",),
